@@ -499,32 +499,8 @@ def r_clean_paired(ctx):
                     e = elem(L)
                     src = L[3]
 
-                    def sequence_at_position(t):
-                        """the sequence of which `t` is the element at the loop's current position, in the ways of walking
-                        several sequences in step: zip(A, B) components, enumerate(X) / enumerate(zip(..)), X[position]"""
-                        def of(x, seq):
-                            if x == e:
-                                return seq
-                            if isinstance(x, tuple) and len(x) == 3 and x[0] == "idx" and is_const(x[2]):
-                                inner = of(x[1], seq)
-                                if isinstance(inner, tuple) and inner and inner[0] == "call" and inner[1] == "zip" \
-                                        and isinstance(x[2][1], int) and x[2][1] < len(inner[2]):
-                                    return inner[2][x[2][1]]
-                                if isinstance(inner, tuple) and inner and inner[0] == "call" and inner[1] == "enumerate" and x[2] == K(1):
-                                    return inner[2][0]
-                            return None
-                        got = of(t, src)
-                        if got is not None:
-                            return got
-                        if isinstance(t, tuple) and len(t) == 3 and t[0] == "idx":
-                            position = t[2]
-                            at_pos = position == ("pos", L) or (src[0] == "range" and position == e and src[1] == K(0)) \
-                                or (src[0] == "call" and src[1] == "enumerate" and position == ("idx", e, K(0)))
-                            if at_pos:
-                                return t[1]
-                        return None
                     bl, bt = el[3], et[3]
-                    sl, st_ = sequence_at_position(bl), sequence_at_position(bt)
+                    sl, st_ = sequence_at_position(bl, L), sequence_at_position(bt, L)
                     comp = {bl: sl, bt: st_}
                     ok_l = sl is not None and p_lv in subterms(sl) and p_tm not in subterms(sl)
                     ok_t = st_ is not None and p_tm in subterms(st_) and p_lv not in subterms(st_)
